@@ -184,7 +184,7 @@ func (x *Exec) routerHavoc(st *State, h int) {
 			if !ok {
 				continue
 			}
-			s.G[n] = x.enc.FreshConst(n+"@hook", gi.Sort)
+			s.G[n] = x.freshGhost(n, "@hook", gi.Sort)
 		}
 	}
 	s.EvOpaque = true
@@ -235,5 +235,82 @@ func init() {
 	})
 	reg("(*github.com/cosmos/cosmos-sdk/types.Result).GetEvents", "Result.GetEvents: events produced by the routed handler (opaque)", func(c *CallCtx) []Outcome {
 		return c.ret(ListV{Elems: []Value{TV{T: "opaque_events", Ty: nil}}})
+	})
+}
+
+func init() {
+	feeUF := func(name, ret string, rt func(c *CallCtx) types.Type) Intrinsic {
+		return func(c *CallCtx) []Outcome {
+			e := c.x.enc
+			e.DeclFun(name, []string{"Iface"}, ret)
+			t := app(name, c.x.asTV(c.st, c.args[0]).T)
+			ty := c.cc.Signature().Results().At(0).Type()
+			for _, f := range e.TypeFacts(t, ty, 0) {
+				c.st.Assume(f)
+			}
+			return c.ret(TV{T: t, Ty: ty})
+		}
+	}
+	reg("github.com/cosmos/cosmos-sdk/types.FeeTx.FeePayer", "FeeTx.FeePayer is a pure function of the transaction", feeUF("feePayer", "Bytes", nil))
+	reg("github.com/cosmos/cosmos-sdk/types.FeeTx.FeeGranter", "FeeTx.FeeGranter is a pure function of the transaction", feeUF("feeGranter", "Bytes", nil))
+	reg("github.com/cosmos/cosmos-sdk/types.FeeTx.GetGas", "FeeTx.GetGas is a pure function of the transaction", feeUF("txGas", "Int", nil))
+	reg("github.com/cosmos/cosmos-sdk/types.FeeTx.GetFee", "FeeTx.GetFee is a pure function of the transaction", func(c *CallCtx) []Outcome {
+		e := c.x.enc
+		ty := c.cc.Signature().Results().At(0).Type()
+		e.DeclFun("txFee", []string{"Iface"}, e.Sort(ty))
+		return c.ret(TV{T: app("txFee", c.x.asTV(c.st, c.args[0]).T), Ty: ty})
+	})
+	reg("FeeWhitelistKeeper.FeeWhitelist", "FeeWhitelistKeeper.FeeWhitelist is Keeper.FeeWhitelist: the FeeWhitelist field of the stored params; fails iff params are unset", func(c *CallCtx) []Outcome {
+		kp := c.x.L.SSA[repoPrefix+"/x/opchild/types"]
+		pt := kp.Type("Params").Type()
+		sort := "(Opt " + c.x.enc.Sort(pt) + ")"
+		o := c.x.ghostGet(c.st, handleOf(c.args[1]), "Params", sort, ghostInfo{ValTy: pt, Opt: true})
+		some := isSomeT(o, sort)
+		wl, _ := c.x.fieldByName(c.st, TV{T: app("val", o), Ty: pt}, "FeeWhitelist")
+		for _, f := range c.x.enc.TypeFacts(app("val", o), pt, 0) {
+			c.st.Assume(implies(some, f))
+		}
+		return c.ret(wl, TV{T: ite(some, "0", c.x.errNotFound()), Ty: tError})
+	})
+	reg("(github.com/cosmos/cosmos-sdk/x/authz.MsgExec).GetMessages", "authz.MsgExec.GetMessages unpacks the inner messages: a pure partial function of the message", func(c *CallCtx) []Outcome {
+		e := c.x.enc
+		arg := c.tv(0)
+		s := e.Sort(arg.Ty)
+		e.DeclFun("authzMsgs", []string{s}, "(GSeq Iface)")
+		e.DeclFun("authzMsgsOK", []string{s}, "Bool")
+		t := app("authzMsgs", arg.T)
+		c.st.Assume(and(app(">=", app("gseq.len", t), "0"), app("<", app("gseq.len", t), two63)))
+		errT := e.FreshConst("maybeerr", "Int")
+		c.st.Assume(eq(eq(errT, "0"), app("authzMsgsOK", arg.T)))
+		return c.ret(TV{T: t, Ty: c.resultType(0)}, TV{T: errT, Ty: tError})
+	})
+	reg("dyn:next", "the next ante handler: arbitrary, confined to the context it is given", func(c *CallCtx) []Outcome {
+		c.st.nextCalled++
+		sig := c.cc.Signature()
+		return c.ret(c.args[1], c.x.freshTV("nexterr", sig.Results().At(1).Type(), c.st))
+	})
+	reg("AnteKeeper.MinGasPrices", "AnteKeeper.MinGasPrices is Keeper.MinGasPrices: the MinGasPrices field of the stored params; fails iff params are unset", func(c *CallCtx) []Outcome {
+		kp := c.x.L.SSA[repoPrefix+"/x/opchild/types"]
+		pt := kp.Type("Params").Type()
+		sort := "(Opt " + c.x.enc.Sort(pt) + ")"
+		o := c.x.ghostGet(c.st, handleOf(c.args[1]), "Params", sort, ghostInfo{ValTy: pt, Opt: true})
+		some := isSomeT(o, sort)
+		v, _ := c.x.fieldByName(c.st, TV{T: app("val", o), Ty: pt}, "MinGasPrices")
+		return c.ret(v, TV{T: ite(some, "0", c.x.errNotFound()), Ty: tError})
+	})
+	reg("(github.com/cosmos/cosmos-sdk/types.Context).MinGasPrices", "Context.MinGasPrices is the node's configured minimum gas prices (a fixed value of the context)", func(c *CallCtx) []Outcome {
+		ty := c.resultType(0)
+		n := c.x.enc.DeclConst("ctx.minGasPrices", c.x.enc.Sort(ty))
+		return c.ret(TV{T: n, Ty: ty})
+	})
+}
+
+func init() {
+	// ----- coin algebra used by the fee checker (A-COIN) -----------------------------------------------
+	reg("(github.com/cosmos/cosmos-sdk/types.DecCoins).IsZero", "DecCoins.IsZero: every coin of the (possibly empty) list has a zero amount (A-COIN)", func(c *CallCtx) []Outcome {
+		return c.ret(TV{T: c.uf("decCoinsIsZero", "Bool", c.tv(0)), Ty: tBool})
+	})
+	reg("(github.com/cosmos/cosmos-sdk/types.Coins).IsAnyGTE", "Coins.IsAnyGTE(a,b): b is non-empty and for some denom of a, b's amount of it is non-zero and not larger than a's (cosmos-sdk types/coin.go) (A-COIN)", func(c *CallCtx) []Outcome {
+		return c.ret(TV{T: c.uf("coinsIsAnyGTE", "Bool", c.tv(0), c.tv(1)), Ty: tBool})
 	})
 }
